@@ -31,6 +31,10 @@ MEM_TYPE = 0x30   # unknown type id -> base MemoryElement, only Memory itself is
 H = 8.0
 
 
+# status bytes of a refused chunk: any non-zero value (the firmware's codes are errno-like, but the byte is the device's to choose)
+_ERR_STATUS = [5, 200, 41, 1, 255, 58, 133, 22, 12, 2, 254]
+
+
 def _data(n, seed):
     return bytes(((i * 37 + seed * 11 + (i >> 3)) & 0xff) for i in range(n))
 
@@ -137,7 +141,7 @@ def run_mem(case):
                         mid, addr = data[0], struct.unpack('<I', data[1:5])[0]
                         body = data[5:]
                         dev.mem.mems[mid].poke(addr, pending_undo.get((mid, addr), dev.mem.mems[mid].peek(addr, len(body))))
-                    r = (rp, rc, rd[:5] + bytes([5]))
+                    r = (rp, rc, rd[:5] + bytes([_ERR_STATUS[j % len(_ERR_STATUS)]]))
                 res.append((r, delay, None))
                 if j in pol['dups']:
                     res.append((r, (delay or 0.001) + pol['dup_gap'], (lambda key=key, gen=gen: last_req.get(key) == gen)))
@@ -561,7 +565,7 @@ def run_deck_api(case):
                     mid, addr = struct.unpack('<BI', data[:5])
                     for x in range(addr, addr + len(data) - 5):
                         spec.cells.pop(x, None)
-                rd = rd[:5] + bytes([5])
+                rd = rd[:5] + bytes([_ERR_STATUS[j % len(_ERR_STATUS)]])
             res.append((rp, rc, rd))
         return res
     dev.handle = handle
